@@ -85,7 +85,65 @@ fn main() {
     let mut rng = Rng::new(a.seed);
     let mut run = Run::new(&a.out);
     quiet_panics();
-    let nseq = if a.thorough() { 6000 } else { 260 };
+    let nseq = if a.thorough() { 4000 } else { 260 };
+
+    // ---- single factors, phases, walker, next
+    let d = Discount::default();
+    let mut ts: Vec<usize> = (0..=(CFR_DISCOUNT_PHASE + 20)).collect();
+    ts.extend((CFR_PRUNNING_PHASE - 3)..(CFR_PRUNNING_PHASE + 3));
+    for _ in 0..400 {
+        let width = 1 + rng.below(40);
+        ts.push(rng.below(1u64 << width) as usize);
+    }
+    let mut profile = Profile::default();
+    let bucket = Bucket::from((Path::from(7u64), Abstraction::from(3u64), Path::from(9u64)));
+    for &t in &ts {
+        run.evaluations += 1;
+        run.spec_checked += 1;
+        let dp = d.policy(t);
+        run.line(&format!("dpolicy {t}"), &tok(dp));
+        let want = (t as f64 / (t as f64 + 1.0)).powf(GAMMA);
+        if (dp as f64 - want).abs() > 1e-6 {
+            run.fail("policy-discount-not-(t/(t+1))^gamma", &format!("t = {t}"), &format!("{want:e}"), &format!("{dp:e}"));
+        }
+        for r in [1.0f32, -1.0, 0.0, 123.5, -0.001] {
+            // the factor actually applied by Profile::add_regret: observe it on a stored 1.0
+            profile.verif_set_memory(&bucket, &Edge::Call, 1.0, 1.0);
+            profile.verif_set_epochs(t);
+            let one: BTreeMap<Edge, f32> = [(Edge::Call, r)].into_iter().collect();
+            profile.add_regret(&bucket, &Regret::from(one));
+            let after = profile.verif_memory(&bucket, &Edge::Call).unwrap().0;
+            let phase_factor = match Phase::from(t) {
+                Phase::Discount => d.regret(t, r),
+                _ => 1.0,
+            };
+            run.line(&format!("dregret {t} {}", r.to_bits()), &tok(phase_factor));
+            let want = d_spec(t, r as f64);
+            if (phase_factor as f64 - want).abs() > 1e-6 || ((after - r) as f64 - want).abs() > 1e-4 {
+                run.fail("regret-discount-differs-from-spec", &format!("t = {t}, added regret {r}"), &format!("{want:e}"), &format!("factor {phase_factor:e}, observed {:e}", after - r));
+            }
+            if t >= 1 && !(phase_factor > 0.0 && phase_factor <= 1.0) {
+                run.fail("regret-weight-outside-spec", &format!("t = {t}, added regret {r}"), "(0,1]", &format!("{phase_factor:e}"));
+            }
+        }
+        let ph = match Phase::from(t) {
+            Phase::Discount => 0,
+            Phase::Explore => 1,
+            Phase::Prune => 2,
+        };
+        run.line(&format!("phase {t}"), &ph.to_string());
+        let want_ph = if t < CFR_DISCOUNT_PHASE { 0 } else if t < CFR_PRUNNING_PHASE { 1 } else { 2 };
+        if ph != want_ph {
+            run.fail("phase-boundary", &format!("t = {t}"), &want_ph.to_string(), &ph.to_string());
+        }
+        profile.verif_set_epochs(t);
+        run.line(&format!("walker {t}"), &walker_of(&profile));
+        let nx = profile.next();
+        run.line(&format!("next {t}"), &nx.to_string());
+        if nx != t + 1 || walker_of(&profile) != ((t + 1) % 2).to_string() {
+            run.fail("walker-does-not-alternate", &format!("next at {t}"), &format!("{} walker {}", t + 1, (t + 1) % 2), &format!("{nx} walker {}", walker_of(&profile)));
+        }
+    }
 
     for case in 0..nseq {
         let n = 1 + rng.below(5) as usize;
@@ -236,64 +294,6 @@ fn main() {
                 run.fail("regret-not-discounted-sum", &format!("{what}, action {i}"), &format!("{want:e}"), &format!("{got:e}"));
                 break;
             }
-        }
-    }
-
-    // ---- single factors, phases, walker, next
-    let d = Discount::default();
-    let mut ts: Vec<usize> = (0..=(CFR_DISCOUNT_PHASE + 20)).collect();
-    ts.extend((CFR_PRUNNING_PHASE - 3)..(CFR_PRUNNING_PHASE + 3));
-    for _ in 0..400 {
-        let width = 1 + rng.below(40);
-        ts.push(rng.below(1u64 << width) as usize);
-    }
-    let mut profile = Profile::default();
-    let bucket = Bucket::from((Path::from(7u64), Abstraction::from(3u64), Path::from(9u64)));
-    for &t in &ts {
-        run.evaluations += 1;
-        run.spec_checked += 1;
-        let dp = d.policy(t);
-        run.line(&format!("dpolicy {t}"), &tok(dp));
-        let want = (t as f64 / (t as f64 + 1.0)).powf(GAMMA);
-        if (dp as f64 - want).abs() > 1e-6 {
-            run.fail("policy-discount-not-(t/(t+1))^gamma", &format!("t = {t}"), &format!("{want:e}"), &format!("{dp:e}"));
-        }
-        for r in [1.0f32, -1.0, 0.0, 123.5, -0.001] {
-            // the factor actually applied by Profile::add_regret: observe it on a stored 1.0
-            profile.verif_set_memory(&bucket, &Edge::Call, 1.0, 1.0);
-            profile.verif_set_epochs(t);
-            let one: BTreeMap<Edge, f32> = [(Edge::Call, r)].into_iter().collect();
-            profile.add_regret(&bucket, &Regret::from(one));
-            let after = profile.verif_memory(&bucket, &Edge::Call).unwrap().0;
-            let phase_factor = match Phase::from(t) {
-                Phase::Discount => d.regret(t, r),
-                _ => 1.0,
-            };
-            run.line(&format!("dregret {t} {}", r.to_bits()), &tok(phase_factor));
-            let want = d_spec(t, r as f64);
-            if (phase_factor as f64 - want).abs() > 1e-6 || ((after - r) as f64 - want).abs() > 1e-4 {
-                run.fail("regret-discount-differs-from-spec", &format!("t = {t}, added regret {r}"), &format!("{want:e}"), &format!("factor {phase_factor:e}, observed {:e}", after - r));
-            }
-            if t >= 1 && !(phase_factor > 0.0 && phase_factor <= 1.0) {
-                run.fail("regret-weight-outside-spec", &format!("t = {t}, added regret {r}"), "(0,1]", &format!("{phase_factor:e}"));
-            }
-        }
-        let ph = match Phase::from(t) {
-            Phase::Discount => 0,
-            Phase::Explore => 1,
-            Phase::Prune => 2,
-        };
-        run.line(&format!("phase {t}"), &ph.to_string());
-        let want_ph = if t < CFR_DISCOUNT_PHASE { 0 } else if t < CFR_PRUNNING_PHASE { 1 } else { 2 };
-        if ph != want_ph {
-            run.fail("phase-boundary", &format!("t = {t}"), &want_ph.to_string(), &ph.to_string());
-        }
-        profile.verif_set_epochs(t);
-        run.line(&format!("walker {t}"), &walker_of(&profile));
-        let nx = profile.next();
-        run.line(&format!("next {t}"), &nx.to_string());
-        if nx != t + 1 || walker_of(&profile) != ((t + 1) % 2).to_string() {
-            run.fail("walker-does-not-alternate", &format!("next at {t}"), &format!("{} walker {}", t + 1, (t + 1) % 2), &format!("{nx} walker {}", walker_of(&profile)));
         }
     }
 
